@@ -17,6 +17,8 @@ import (
 	"github.com/cockroachdb/errors/extgrpc"
 	errgrpc "github.com/cockroachdb/errors/grpc"
 	"github.com/cockroachdb/logtags"
+	gogorpc "github.com/gogo/googleapis/google/rpc"
+	"github.com/gogo/protobuf/types"
 	gogostatus "github.com/gogo/status"
 	"google.golang.org/grpc/codes"
 	grpcstatus "google.golang.org/grpc/status"
@@ -91,6 +93,31 @@ func (c20) Run(t *tape.Tape, tier Tier) *Result {
 	if st, err := gogostatus.New(codes.Code(1+t.Draw(20)), "TKUdetailsQ message").WithDetails(
 		&errorspb.StringsPayload{Details: []string{"d1", "TKUdetQ"}}, &errorspb.StringPayload{Msg: "second"}); err == nil {
 		hs = append(hs, handlerErr{"gogostatus-details", st.Err(), nil})
+	}
+	// a status error with a detail of a message type this program does not
+	// contain (a newer peer's detail): passes through with the detail intact
+	if st := gogostatus.FromProto(&gogorpc.Status{Code: int32(1 + t.Draw(16)), Message: "TKUunkQ message",
+		Details: []*types.Any{{TypeUrl: "type.googleapis.com/errsim.NotLinkedIn", Value: []byte{0x0a, 0x03, 'a', 'b', 'c'}}}}); st != nil {
+		hs = append(hs, handlerErr{"gogostatus-unknown-detail", st.Err(), nil})
+	}
+	// a relay: the handler called a downstream service without the client
+	// interceptor and returns the status it got (which carries that service's
+	// encoded error as a detail) wrapped in its own context
+	{
+		down := g.Sub(4)
+		if enc, p := obs.Encode(gen.Build(down)); p == "" {
+			var ee errorspb.EncodedError
+			if ee.Unmarshal(enc) == nil {
+				if st, err := gogostatus.New(codes.Code(1+t.Draw(16)), "TKUdownQ").WithDetails(&ee); err == nil {
+					rel := &gen.Node{K: gen.WWrap, S: []gen.Str{g.SG.Str(true)}, Kids: []*gen.Node{{K: gen.LGiven}}}
+					gen.GivenErr = st.Err()
+					e := gen.Build(rel)
+					gen.GivenErr = nil
+					hs = append(hs, handlerErr{"relayed-downstream-status", e, rel})
+					res.Desc.Tree += "relay of a downstream status carrying " + down.Expr() + " ; "
+				}
+			}
+		}
 	}
 	for _, h := range hs {
 		cl.Set(h.id, h.err)
